@@ -127,8 +127,8 @@ def drive(which, els, bufsize, flow):
             return ("ok", _norm(list(Split([tuple(els)], bufsize=bufsize).run(iter(flow)))))
         if which == 3:
             # the chain as the second branch, after a branch that signals
-            # LenaStopFill on its second value
-            stopper = (Slice(1), StoreFilled(), _stop_tag)
+            # LenaStopFill on the very first value
+            stopper = (Slice(0), StoreFilled(), _stop_tag)
             out = list(Split([stopper, tuple(els)], bufsize=bufsize).run(iter(flow)))
             return ("ok", _norm([v for v in out if not (isinstance(v, tuple) and len(v) == 2
                                                         and v[0] == "stopper")]))
